@@ -195,27 +195,67 @@ def argument_context(ctx):
         st = cfg.node_containing(c).ast
         ctx.ob(isinstance(st, ast.Assign) and is_name(st.targets[0], m.cur_var) and st.value is c, u,
                'the call result becomes the running value: %s' % norm(st), node=st)
+    ctx.floor(11)
+
+
+@rule('C02.10')
+def call_parts(ctx):
+    p = ctx.program
     # Call.glomit evaluates func, args, kwargs with arg_val against its target
     cu = ctx.unit('core.Call.glomit')
-    lam = [x for x in cu.children if x.is_lambda]
+    ccfg = ctx.cfg(cu)
+    lam = {x.node: x for x in cu.children if x.is_lambda}
     r = [n for n in cu.own_nodes() if isinstance(n, ast.Return)]
+
+    def part_eval(e, attr):
+        """e evaluates self.<attr> with arg_val(target, part, scope), directly or through a local
+        lambda wrapping exactly that call"""
+        if not isinstance(e, ast.Call):
+            return False
+        if callee_qual(p, cu, e) == 'core.arg_val':
+            return len(e.args) == 3 and is_name(e.args[0], cu.params[1]) and is_name(e.args[2], cu.params[2]) \
+                and isinstance(e.args[1], ast.Attribute) and e.args[1].attr == attr and is_name(e.args[1].value, cu.params[0])
+        if isinstance(e.func, ast.Name) and len(e.args) == 1 and isinstance(e.args[0], ast.Attribute) \
+                and e.args[0].attr == attr and is_name(e.args[0].value, cu.params[0]):
+            for _, v in ccfg.reaching_defs(ccfg.node_containing(e), e.func.id):
+                lu = lam.get(v)
+                if lu is None:
+                    return False
+                cs = [c for c in calls_in(lu) if callee_qual(p, lu, c) == 'core.arg_val']
+                if not (len(cs) == 1 and lu.node.body is cs[0] and is_name(cs[0].args[0], cu.params[1])
+                        and is_name(cs[0].args[2], cu.params[2]) and is_name(cs[0].args[1], lu.params[0])):
+                    return False
+            return True
+        return False
     ok = False
+    detail = ''
     if len(r) == 1 and isinstance(r[0].value, ast.Call):
         call = r[0].value
-        def through_r(e, attr):
-            e2 = e.value if isinstance(e, ast.Starred) else e
-            return isinstance(e2, ast.Call) and isinstance(e2.func, ast.Name) and len(e2.args) == 1 \
-                and isinstance(e2.args[0], ast.Attribute) and e2.args[0].attr == attr
-        ok = through_r(call.func, 'func') and len(call.args) == 1 and isinstance(call.args[0], ast.Starred) \
-            and through_r(call.args[0], 'args') and len(call.keywords) == 1 and call.keywords[0].arg is None \
-            and through_r(call.keywords[0].value, 'kwargs')
-    ctx.ob(ok, cu, 'Call applies r(func)(*r(args), **r(kwargs)): %s' % (norm(r[0]) if r else None))
-    for lu in lam:
-        cs = [c for c in calls_in(lu) if callee_qual(p, lu, c) == 'core.arg_val']
-        ok = len(cs) == 1 and is_name(cs[0].args[0], cu.params[1]) and is_name(cs[0].args[2], cu.params[2]) \
-            and is_name(cs[0].args[1], lu.params[0])
-        ctx.ob(ok, cu, 'Call evaluates each part with arg_val(target, part, scope): %s' % norm(lu.node), node=lu.node)
-    ctx.floor(12)
+        rn = ccfg.node_of(r[0])
+        ok = len(call.args) == 1 and isinstance(call.args[0], ast.Starred) and len(call.keywords) == 1 \
+            and call.keywords[0].arg is None
+        if ok:
+            seq = []
+            for slot, (e, attr) in enumerate(((call.func, 'func'), (call.args[0].value, 'args'), (call.keywords[0].value, 'kwargs'))):
+                if isinstance(e, ast.Name):
+                    ds = ccfg.reaching_defs(rn, e.id, split=False)
+                    if len(ds) != 1 or not isinstance(ds[0][1], ast.AST) or not part_eval(ds[0][1], attr):
+                        ok = False
+                        detail = '%s is not arg_val(target, self.%s, scope)' % (e.id, attr)
+                        break
+                    seq.append((0, ds[0][0].lineno, slot))
+                else:
+                    if not part_eval(e, attr):
+                        ok = False
+                        detail = 'the %s part is not arg_val(target, self.%s, scope)' % (attr, attr)
+                        break
+                    seq.append((1, 0, slot))
+            if ok and seq != sorted(seq):
+                ok = False
+                detail = 'parts are not evaluated in the order func, args, kwargs'
+    ctx.ob(ok, cu, 'Call applies func(*args, **kwargs) to its three parts, each evaluated once with arg_val(target, part, scope), '
+           'in the order func, args, kwargs: %s' % (norm(r[0]) if r else None), detail)
+    ctx.floor(1)
 
 
 @rule('C02.4')
